@@ -188,6 +188,25 @@ func ctxHarness(rc *RunCtx) {
 			s.Go("ctx-task", func() {
 				private := frugal.NewFContext(fmt.Sprintf("p%d", t))
 				noteOpid(private, fmt.Sprintf("task%d/private", t))
+				if tp.Intn("longproto", 3) == 1 {
+					// one protocol object reads the requests of a long-lived connection, one after the other, while
+					// the rest of the process goes on creating contexts: every received context has its own op id
+					rc.Fault("one-protocol-reads-many-requests")
+					buf := &thrift.TMemoryBuffer{Buffer: bytes.NewBuffer(nil)}
+					in := pf.GetProtocol(buf)
+					for j, n := 0, 20+tp.Intn("longproto", 30); j < n; j++ {
+						buf.Write(EncodeBody(map[string]string{"_opid": fmt.Sprint(800000 + t*1000 + j), "_cid": "l"}, nil))
+						rctx, err := in.ReadRequestHeader()
+						if err != nil {
+							rc.Violate("INFRA", "read-request-header", "ctx long-lived protocol", err.Error())
+							break
+						}
+						noteOpid(rctx, fmt.Sprintf("task%d/received-on-long-lived-protocol#%d", t, j))
+						if tp.Intn("longproto", 3) == 0 {
+							noteOpid(frugal.NewFContext("between"), fmt.Sprintf("task%d/created-between-received#%d", t, j))
+						}
+					}
+				}
 				for i := 0; i < opsPer; i++ {
 					switch k := tp.Intn("ops", 10); {
 					case tp.Intn("tmo", 5) == 4:
